@@ -2,14 +2,14 @@
 (* design level: the documented layout is lossless - Decode(Encode(t)) = Content(t) for every tensor and descriptor of the scope, with and without a larger imposed shape *)
 EXTENDS FTCodec
 CONSTANTS NC, DEPTH
-VARIABLES t, desc, extra
-vars == <<t, desc, extra>>
+VARIABLES t, desc, extra, dflt
+vars == <<t, desc, extra, dflt>>
 T == IF DEPTH = 1 THEN Trees1(NC, {0, 1, 2}) ELSE Trees2(NC, {0, 1})
-Init == t \in {Fib(e) : e \in T} /\ desc \in [1..DEPTH -> {"U", "C", "B"}] /\ extra \in {0, 1}
+Init == t \in {Fib(e) : e \in T} /\ desc \in [1..DEPTH -> {"U", "C", "B"}] /\ extra \in {0, 1} /\ dflt \in {0, 1}      \* tensor default 0, or 1 (then a stored 0 is content)
 Next == UNCHANGED vars
 Sh == [k \in 1..DEPTH |-> NC + extra]
-DesignOK == LET enc == Encode(desc, Sh, t, 0)
-                dec == Decode(desc, Sh, enc.coords, enc.pays, enc.rootp)
-            IN dec.ok /\ dec.content = Content(t, 0)
+DesignOK == LET enc == Encode(desc, Sh, t, dflt)
+                dec == Decode(desc, Sh, enc.coords, enc.pays, enc.rootp, dflt)
+            IN dec.ok /\ dec.content = Content(t, dflt)
                 /\ \A k \in 1..DEPTH : dec.cur.c[k] = Len(enc.coords[k]) /\ dec.cur.p[k] = Len(enc.pays[k])      \* every stored word is consumed exactly once
 =============================================================================
